@@ -385,6 +385,18 @@ def int_eval(expr: ast.AST, atoms: Callable[[ast.AST], Optional[Any]]) -> Any:
             if v:
                 break
         return res
+    if isinstance(expr, ast.Compare) and len(expr.ops) == 1 and isinstance(expr.ops[0], (ast.Is, ast.IsNot)) and isinstance(expr.comparators[0], ast.Constant) and expr.comparators[0].value is None:
+        int_eval(expr.left, atoms)  # an integer is never None
+        return isinstance(expr.ops[0], ast.IsNot)
+    if isinstance(expr, ast.Call) and isinstance(expr.func, ast.Name) and expr.func.id == "isinstance" and len(expr.args) == 2 and not expr.keywords:
+        # the type test of an argument check: the value is an int (bool when it is True / False)
+        val = int_eval(expr.args[0], atoms)
+        kinds = expr.args[1].elts if isinstance(expr.args[1], ast.Tuple) else [expr.args[1]]
+        names = [norm(k) for k in kinds]
+        known = {"int": True, "numbers.Integral": True, "numbers.Number": True, "numbers.Real": True, "object": True, "bool": isinstance(val, bool), "str": False, "bytes": False, "bytearray": False, "float": False, "list": False, "tuple": False, "dict": False, "type(None)": False}
+        if all(n_ in known for n_ in names):
+            return any(known[n_] for n_ in names)
+        raise Unevaluable(norm(expr))
     if isinstance(expr, ast.Compare):
         left = int_eval(expr.left, atoms)
         for op, comp in zip(expr.ops, expr.comparators):
